@@ -500,6 +500,10 @@ public:
         assert_wrapper_t val(id, &s);
         it = m_assert_map.insert(typename assert_map_t::value_type(&s, val)).first;
       }
+      // The fact is joined with what is already known for s at this
+      // point: inside a loop the variables that reach s through the
+      // back edge arrive here from the successors.
+      vdom = vdom | m_sol.get_first()[it->second];
       m_sol.get_first().set(it->second, vdom);
       CRAB_LOG("assertion-crawler-step", crab::outs()
                                              << "*** " << s << "\n"
